@@ -39,7 +39,7 @@ def run(tier, seed, replay=None):
     pts = universe.points(tier, seed)
     for i, (name, text) in enumerate(universe.boundary_sources()):
         for w in ((60, 100) if tier == "quick" else (40, 60, 80, 100, 120)):
-            se = universe.STYLE_EDITIONS[(i + w) % 3]
+            se = universe.STYLE_EDITIONS[(core.fnv(name.encode()) + w) % 3]
             pts.append((f"{name}@w={w},se={se},v0", name, text,
                         {"max_width": w, "style_edition": se}))
     for i, (name, text, o) in enumerate(universe.kindmix_sources()):
